@@ -21,7 +21,8 @@ RULE = ("start/stop histories over small trees (0-3 product files) x key types x
         "OSError from write() after a partial write, error on close()) at the same place, and run under a real file-size limit "
         "(RLIMIT_FSIZE) that lets only a prefix of the final link reach the disk whichever way the code writes; preliminary "
         "record missing / edited / re-signed by another key / left by another key; interleaved start / stop / run of two step "
-        "names and keys in one directory. Non-trivial: every crash run and every tampered-preliminary run; distinct by "
+        "names and keys in one directory (all starts before the stops, and random interleavings of 4-10 calls incl. stop "
+        "before start, repeated start / stop, run over a finished recording, the recorded file changing between calls). Non-trivial: every crash run and every tampered-preliminary run; distinct by "
         "(history, crash point).")
 ASSUMPTIONS = ["'the process dies' is os._exit at an audited operation or inside write(); durability of a completed write "
                "across power loss (no fsync) is outside the property",
@@ -414,6 +415,104 @@ def interleaved(rng, res):
         shutil.rmtree(root, ignore_errors=True)
 
 
+def interleaved_random(rng, res):
+    """Random interleavings (4-10 calls) of record start / stop / run over two step names and two keys in one
+    directory, the recorded file changing between calls: every call's outcome and the final state of the two
+    files of every (name, key) pair are compared with the Lean `runDirOps`; the oracle replays, per pair, only
+    that pair's calls in a fresh directory (non-interference)."""
+    STOP_KW.clear()
+    import in_toto.runlib as rl
+    from in_toto.models.metadata import Metadata
+    keys = rng.sample(W.pool(), 2)
+    names = ["a", "b"]
+    ops = []
+    for _ in range(rng.randrange(4, 11)):
+        ops.append((rng.choice(["start", "start", "stop", "stop", "run"]), rng.choice(names), rng.choice(keys), rng.randrange(1000)))
+
+    def perform(seq):
+        """Runs the calls in a fresh directory; returns (outcomes, {slot: (prelim fields, final fields)})."""
+        root = tempfile.mkdtemp(prefix="verif-c12r-")
+        cwd = os.getcwd()
+        outs = []
+        try:
+            os.chdir(root)
+            with quiet():
+                for act, name, k, v in seq:
+                    open("m0", "w").write("content %d\n" % v)
+                    try:
+                        if act == "start":
+                            rl.in_toto_record_start(name, ["m0"], signer=k.signer)
+                        elif act == "stop":
+                            rl.in_toto_record_stop(name, ["m0"], signer=k.signer)
+                        else:
+                            rl.in_toto_run(name, ["m0"], ["m0"], ["true"], signer=k.signer)
+                        outs.append(True)
+                    except Exception:  # pylint: disable=broad-except
+                        outs.append(False)
+            state = {}
+            for name in names:
+                for k in keys:
+                    kid = k.keyid[:8]
+
+                    def fields(path, final):
+                        if not os.path.exists(path):
+                            return None
+                        md = Metadata.load(path)
+                        md.verify_signature(k.pub)
+                        pl = md.get_payload()
+                        f = {"materials": sorted([a, b["sha256"]] for a, b in pl.materials.items()), "signer": k.keyid}
+                        if final:
+                            f["products"] = sorted([a, b["sha256"]] for a, b in pl.products.items())
+                        return f
+                    state[(name, k.keyid)] = (fields(".%s.%s.link-unfinished" % (name, kid), False), fields("%s.%s.link" % (name, kid), True))
+            return outs, state
+        finally:
+            os.chdir(cwd)
+            shutil.rmtree(root, ignore_errors=True)
+
+    def m0(v):
+        return [["m0", sha_of("content %d\n" % v)]]
+    outs, state = perform(ops)
+    req = []
+    for act, name, k, v in ops:
+        o = {"op": act, "name": name, "key": k.keyid}
+        if act in ("start", "run"):
+            o["materials"] = m0(v)
+        if act in ("stop", "run"):
+            o["products"] = m0(v)
+        req.append(o)
+    m = core.driver().call({"op": "dir_ops", "ops": req})["ok"]
+
+    def norm(x, final):
+        if x is None or x == "partial":
+            return x
+        f = {"materials": sorted([a, b["digest"]] for a, b in x["materials"]), "signer": x["signer"]}
+        if final:
+            f["products"] = sorted([a, b["digest"]] for a, b in x["products"])
+        return f
+    mstate = {(sl["name"], sl["key"]): (norm(sl["prelim"], False), norm(sl["final"], True)) for sl in m["slots"]}
+    touched = {(name, k.keyid) for _a, name, k, _v in ops}
+    impl_state = {sl: st for sl, st in state.items() if sl in touched}
+    agreed = outs == m["outcomes"] and impl_state == mstate
+    desc = [[a, n, k.keyid[:4], v] for a, n, k, v in ops]
+    res.case({"interleaving": desc, "outcomes": outs}, True, agreed, sample_cap=2)
+    res.count("interleaved_random")
+    if not agreed:
+        res.fail("disagree", {"op": "dir_ops", "ops": desc},
+                 {"op": "dir_ops", "impl": {"outcomes": outs, "state": {"%s.%s" % (a, b[:8]): v for (a, b), v in impl_state.items()}},
+                  "model": {"outcomes": m["outcomes"], "state": {"%s.%s" % (a, b[:8]): v for (a, b), v in mstate.items()}}})
+    # oracle: per pair, the same calls alone give the same two files and the same outcomes
+    for sl in sorted(touched):
+        own = [(i, o) for i, o in enumerate(ops) if (o[1], o[2].keyid) == sl]
+        outs2, state2 = perform([o for _i, o in own])
+        res.evaluations += 1
+        if state2[sl] != state[sl] or outs2 != [outs[i] for i, _o in own]:
+            res.fail("oracle", {"op": "dir_ops", "ops": desc, "pair": [sl[0], sl[1][:8]]},
+                     {"why": "calls for other step names / keys changed what the calls for this pair produce",
+                      "interleaved": {"outcomes": [outs[i] for i, _o in own], "files": state[sl]},
+                      "alone": {"outcomes": outs2, "files": state2[sl]}})
+
+
 def shard(seed, idx, n, tier):
     res = core.Result()
     rng = core.rng_for(seed, "c12", idx)
@@ -423,6 +522,8 @@ def shard(seed, idx, n, tier):
         tampered_prelim(rng, res)
     for _ in range(n):
         interleaved(rng, res)
+    for _ in range(2 * n):
+        interleaved_random(rng, res)
     return res
 
 
